@@ -20,6 +20,9 @@ from . import detmodel as D
 
 CH = "pyxel/data_structure/charge.py"
 GEO = "pyxel/detectors/geometry.py"
+BOUNDED = {
+    r'array\.current': 'histories read / edit / read of one cluster table (symbolic content and size)',
+}      # unit-name / obligation-name patterns -> the family these obligations are proved for
 TRUSTED = ["pandas: df[col].values yields the column in row order (get_frame_values is a boundary contract)", "A-NUMBA",
            "np.floor_divide = floor(a/b) in exact arithmetic (one-ulp effects at exact pixel borders ignored)",
            "np.where(mask) enumerates every true index exactly once, in increasing order; pandas concat keeps the rows of its parts in order; create_charges builds the table from "
